@@ -16,7 +16,7 @@ import types
 import numpy as np
 
 import vf.repoenv  # noqa: F401
-from vf.common import HELD, INCONCLUSIVE, VIOLATED, Run, case_hash, main_wrapper, run_pool, seed
+from vf.common import wall_budget, HELD, INCONCLUSIVE, VIOLATED, Run, case_hash, main_wrapper, run_pool, seed
 
 PID = "C18"
 
@@ -333,7 +333,7 @@ def main(tier, replay=None):
     cases = cases_for(tier, s)
     if replay:
         cases = [json.load(open(replay))["replay"]["case"]]
-    results = run_pool("c18", cases, per_case_timeout=500, chunk=2, deadline=time.time() + (480 if tier == "quick" else 3000))
+    results = run_pool("c18", cases, per_case_timeout=500, chunk=2, deadline=time.time() + wall_budget(tier, 480, 3000))
     for r in results:
         run.add(r)
     run.require("kernels_equal", 60 if not replay else 0)
